@@ -562,6 +562,8 @@ func errClass(err error) string {
 		return "minimum"
 	case strings.Contains(m, "already has an active swap"):
 		return "active-swap"
+	case strings.Contains(m, "swap id is already in use"):
+		return "id-in-use"
 	case strings.Contains(m, "exceeding"):
 		return "exceeding"
 	}
